@@ -18,7 +18,11 @@ def g : P := Zr.g
 def parseNat (s : String) : Nat := s.toNat?.getD 0
 def parseInt (s : String) : Int := s.toInt?.getD 0
 
-def longOf (k : Nat) : S := Zr.ofNat (1000 + 7 * k)
+def longOf0 (k : Nat) : S := Zr.ofNat (1000 + 7 * k)
+/-- `DUP=a.b…`: the listed members all use member `a`'s long-term key -/
+def longOf (dup : List Nat) (k : Nat) : S := if dup.contains k then longOf0 (dup.headD 0) else longOf0 k
+/-- the adversary's own long-term secret number `k` ("x<k>") -/
+def advKey (k : Nat) : S := Zr.ofNat (3001 + 11 * k)
 def polyOf (off t k : Nat) : List S := (List.range t).map (fun m => Zr.ofNat (100 * k + off + 3 * m))
 def ephsOf (off n j : Nat) : List S := (List.range n).map (fun i => Zr.ofNat (off + 10 * j + i))
 /-- the adversary's polynomial number `p` for `sealer`, first `l` coefficients -/
@@ -26,13 +30,14 @@ def advPoly (sealer p l : Nat) : List S := (List.range l).map (fun m => Zr.ofNat
 
 structure World where
   n : Nat
+  dup : List Nat
   ms : List (Member S P)
   prev : Option (List (Member S P))
 
-def pubs (n : Nat) : List P := (List.range n).map (fun k => longOf k • g)
+def pubs (dup : List Nat) (n : Nat) : List P := (List.range n).map (fun k => longOf dup k • g)
 
-def freshMembers (n polyOff ephOff : Nat) : List (Member S P) :=
-  (List.range n).map (fun k => Member.init n k (longOf k) (polyOf polyOff (n / 2 + 1) k) (ephsOf ephOff n k))
+def freshMembers (dup : List Nat) (n polyOff ephOff : Nat) : List (Member S P) :=
+  (List.range n).map (fun k => Member.init n k (longOf dup k) (polyOf polyOff (n / 2 + 1) k) (ephsOf ephOff n k))
 
 def getM (ms : List (Member S P)) (i : Nat) : Option (Member S P) := ms[i]?
 def updM (ms : List (Member S P)) (i : Nat) (f : Member S P → Member S P) : List (Member S P) := ms.modify i f
@@ -47,7 +52,7 @@ def sentResps (m : Member S P) : Option (List (DkgResp S P)) :=
 def doStart (ms : List (Member S P)) (i : Nat) : List (Member S P) := updM ms i (Member.start g)
 def doPk (ms : List (Member S P)) (j i : Nat) : List (Member S P) :=
   match (getM ms j).bind sentPk with
-  | some x => updM ms i (fun m => m.recvPk g x)
+  | some x => updM ms i (fun m => m.recvPk g { x with sender := j })     -- `Loop` stamps the transport sender
   | none => ms
 def doDeal (ms : List (Member S P)) (j i : Nat) : List (Member S P) :=
   match (getM ms j).bind (fun m => sentDeal m i) with
@@ -59,8 +64,8 @@ def doResps (ms : List (Member S P)) (k i : Nat) : List (Member S P) :=
   | none => ms
 
 /-- a complete honest session in canonical order (the source of replayed messages) -/
-def runPrev (n : Nat) : List (Member S P) :=
-  let ms := freshMembers n 61 19000
+def runPrev (dup : List Nat) (n : Nat) : List (Member S P) :=
+  let ms := freshMembers dup n 61 19000
   let r := List.range n
   let ms := r.foldl doStart ms
   let pairs := r.flatMap (fun i => (r.filter (· ≠ i)).map (fun j => (j, i)))
@@ -80,9 +85,10 @@ def genuineResp (ms : List (Member S P)) (k j : Nat) : Option (DkgResp S P) :=
   ((getM ms k).bind sentResps).bind (fun rs => rs.find? (fun r => r.index = j))
 
 /-- "D.<claim>.<sealer>.<rcpt>.<variant>" (go/internal/dkgnet Sim.AdvDeal) -/
-def advDeal (n claim sealer rcpt : Nat) (variant : String) : DkgDeal S P :=
+def advDeal (dup : List Nat) (n claim sealer rcpt : Nat) (variant : String) : DkgDeal S P :=
   let t := n / 2 + 1
-  let L := pubs n
+  let L := pubs dup n
+  let longOf := longOf dup
   let spub := longOf sealer • g
   let sidOf (commits : List P) (tt : Nat) : Sid P := .h spub L commits tt
   let mk (p l : Nat) : List S × List P := (advPoly sealer p l, commit g (advPoly sealer p l))
@@ -143,12 +149,12 @@ def advResp (w : World) (dealer responder : Nat) (sidspec : String) (approve : B
     else if sidspec.startsWith "p" then
       let parts := ((sidspec.drop 1).toString).splitOn "_"
       let sealer := parseNat (parts.getD 0 ""); let p := parseNat (parts.getD 1 "")
-      .h (longOf sealer • g) (pubs n) (commit g (advPoly sealer p (n / 2 + 1))) (n / 2 + 1)
+      .h (longOf w.dup sealer • g) (pubs w.dup n) (commit g (advPoly sealer p (n / 2 + 1))) (n / 2 + 1)
     else .raw 7
   let sig : RespSig S P :=
     if signer = "junk" then .junk 1
     else if signer = "none" then .junk 0
-    else .sign (longOf (parseNat signer)) sid responder approve 0
+    else .sign (longOf w.dup (parseNat signer)) sid responder approve 0
   ⟨dealer, some { sid := sid, index := responder, status := approve, sig := sig }⟩
 
 def injectSpec (w : World) (spec : String) (to : Nat) : World :=
@@ -157,7 +163,11 @@ def injectSpec (w : World) (spec : String) (to : Nat) : World :=
   let deliverDeal (x : DkgDeal S P) : World := { w with ms := updM w.ms to (fun m => m.recvDeal g x) }
   let deliverResp (x : DkgResp S P) : World := { w with ms := updM w.ms to (fun m => m.recvResp g x) }
   match f.head? with
-  | some "D" => deliverDeal (advDeal w.n (a 1) (a 2) (a 3) (String.intercalate "." (f.drop 4)))
+  | some "K" =>
+    let ko := f.getD 3 ""
+    let key : P := if ko.startsWith "x" then advKey (parseNat (ko.drop 1).toString) • g else longOf w.dup (parseNat ko) • g
+    { w with ms := updM w.ms to (fun m => m.recvPk g ⟨a 1, some key, a 2⟩) }
+  | some "D" => deliverDeal (advDeal w.dup w.n (a 1) (a 2) (a 3) (String.intercalate "." (f.drop 4)))
   | some "GD" =>
     match (getM w.ms (a 1)).bind (fun m => sentDeal m (a 2)) with
     | some d => deliverDeal { d with index := a 3 }
@@ -218,8 +228,11 @@ def runLine (w : List String) : String :=
         match d.splitOn "=" with
         | k :: rest => (k, String.intercalate "=" rest)
         | [] => ("", ""))
+    let dup : List Nat := match dl.find? (fun d => d.1 = "DUP") with
+      | some d => (d.2.splitOn ".").map parseNat
+      | none => []
     let needPrev := dl.any (fun d => d.2.startsWith "P" || (d.2.splitOn ".prev").length > 1)
-    let w0 : World := { n := n, ms := freshMembers n 11 9000, prev := if needPrev then some (runPrev n) else none }
+    let w0 : World := { n := n, dup := dup, ms := freshMembers dup n 11 9000, prev := if needPrev then some (runPrev dup n) else none }
     let w1 := if evs = "-" then w0 else (evs.splitOn ",").foldl (stepEvent dl) w0
     let outs := w1.ms.map (fun m => match m.stage with | .done _ ks => some ks | _ => none)
     s!"st={String.intercalate "," (w1.ms.map stageCode)} keys={keyClasses outs}"
